@@ -99,4 +99,16 @@ common.dump_ndjson(p, recs7)
 res = tlc.run("Crystal.tla", "Crystal.cfg", env={"TRACE_FILE": p, "MODE": "C07", "SYMDATA": symdata, "REFGROUPS": refgroups})
 say("Crystal one recorded coordinate shifted by 5e-3 in tid", recs7[2]["tid"], "(sg %d) ->" % recs7[2]["sg"], res.printed("FAIL"))
 
+# ---------------------------------------------------------------- Crystal (C12): dataset binding of the label transport (Mappings.tla)
+recs12 = symcommon.collect(run, [(sg, 0, 1, None, 48, "C12") for sg in (62, 136, 167, 225)])
+v = next(r for r in recs12 if len(set(r["ds"]["wy"])) > 1)
+wy_of = {k: v["ds"]["wy"][v["ds"]["m2p"].index(k)] for k in set(v["ds"]["m2p"])}
+c0 = 0
+other = next(k for k in wy_of if wy_of[k] != wy_of[v["ds"]["s2p"][c0]])
+v["ds"]["s2p"][c0] = other  # one entry of the recorded std_mapping_to_primitive points at a primitive atom on another letter
+p = os.path.join(d, "crystal12.ndjson")
+common.dump_ndjson(p, recs12)
+res = tlc.run("Crystal.tla", "Crystal.cfg", env={"TRACE_FILE": p, "MODE": "C12", "SYMDATA": symdata, "REFGROUPS": refgroups})
+say("Crystal(C12) one recorded std_mapping_to_primitive entry redirected in tid", v["tid"], "(sg %d) ->" % v["sg"], res.printed("FAIL"))
+
 open(os.path.join(common.ROOT, "tools", "binding_demo.log"), "w").write("\n".join(out) + "\n")
